@@ -342,6 +342,25 @@ func failureCannotReach(call ssa.CallInstruction, targets []ssa.Instruction) (bo
 			}
 		}
 	}
+	// the error may be kept in a heap variable (captured named result):
+	// *err = v; t = *err; if t != nil
+	for _, ev := range append([]ssa.Value(nil), errVals...) {
+		for _, r := range *ev.Referrers() {
+			st, ok := r.(*ssa.Store)
+			if !ok || st.Val != ev {
+				continue
+			}
+			blk := st.Block()
+			for i := instrIndex(st) + 1; i < len(blk.Instrs); i++ {
+				if s2, ok := blk.Instrs[i].(*ssa.Store); ok && s2.Addr == st.Addr {
+					break
+				}
+				if u, ok := blk.Instrs[i].(*ssa.UnOp); ok && u.Op == token.MUL && u.X == st.Addr {
+					errVals = append(errVals, u)
+				}
+			}
+		}
+	}
 	for _, ev := range errVals {
 		for _, r := range *ev.Referrers() {
 			b, ok := r.(*ssa.BinOp)
